@@ -21,4 +21,7 @@ func locksHeld() int { return simhook.Held }
 // setLockBlocker installs how a task waits for a cooperative lock.
 func setLockBlocker(f func(cond func() bool)) { simhook.Block = f }
 
+// setSpawner installs what a go statement inside qframe becomes.
+func setSpawner(f func(func())) { simhook.Spawn = f }
+
 const injected = true
